@@ -12,6 +12,14 @@ Theorem C06_env_reads_closed : closed scanned_env_reads known_env_reads = true.
 Proof. exact env_reads_closed. Qed.
 Print Assumptions C06_env_reads_closed.
 
+(* Nothing survives from one generation to the next inside one interpreter: the module-level and class-level mutable bindings,
+   `global` declarations, decorators (memoisation), mutable default arguments and attributes stored on class objects of the
+   generator's modules are exactly the four harmless ones Model/Inventory.v lists (a class-level dict, an lru_cache, a cache kept
+   on a class ... anywhere in these modules breaks this obligation). *)
+Theorem C06_process_state_closed : closed scanned_process_state known_process_state = true.
+Proof. exact process_state_closed. Qed.
+Print Assumptions C06_process_state_closed.
+
 (* clock / platform: only substituted into <<<DATETIME>>> / <<<PLATFORM>>>; no line of any shipped template contains them *)
 Theorem C06_datetime_platform_unused :
   forall set file l, In set all_templates -> In file (snd set) -> In l (snd file) ->
